@@ -2,7 +2,7 @@
 
 PROPERTIES = {
     "C18": dict(
-        modules=["serialization", "simulators", "sample_codec"],
+        modules=["serialization", "simulators", "sample_codec", "vector_codec"],
         level="proof",
         claim="codec round trip, refusal of truncated data and exception discipline proved for all inputs as postconditions over contracts on the real functions",
         note="floats as reals; struct/blake2b/int.to_bytes library contracts trusted; see evidence.trusted_base",
@@ -18,7 +18,7 @@ PROPERTIES = {
         not_reached=["geometry kernels behind the requirement predicates (C04/C17)"],
     ),
     "C19": dict(
-        modules=["distributions", "invocables"],
+        modules=["distributions", "invocables", "vector_codec"],
         level="proof",
         claim="enabled-set computation, weighted pick as an RNG-trace contract (probability proportional to weight among the enabled items under A3), shuffle exactly-once loop",
         note="A3: laws of random.choices/randint; number of listed items bounded by 3 in the pick contract (symbolic weights and enabledness)",
